@@ -51,6 +51,9 @@ structure Globals where
   renderModeC18 : PVal := PVal.str ['i', 'n', 'v', 'i', 's', 'i', 'b', 'l', 'e']
   /-- `hashlib.sha1(s.encode("utf-8")).hexdigest()` (not translated): the digest text, or `none` = not supplied (Py/PrimC18.lean) -/
   sha1HexC18 : Str → Option Str := fun _ => Option.none
+  /-- `str.upper` of the running interpreter (harness/pytr_c20b.py: the initial of a JSX tag name), or `none` = not supplied
+      (Py/PrimC20b.lean) -/
+  upperC20b : Str → Option Str := fun _ => Option.none
 
 instance : Inhabited Globals :=
   ⟨{ HTML_ESCAPE_TABLE := .none, HTML_ATTRS_ESCAPE_TABLE := .none, VOID_TAG_NAMES := [],
